@@ -355,7 +355,9 @@ func (a *Analysis) ruleWiring() {
 			default:
 				if rec.Kind == ArgNil {
 					// registered dependency delivered as nil
-					if dep.Optional && a.faultInOp[inv.Op] {
+					if a.nilFaultFired(t.Members[0].Reg) {
+						// the producing constructor was made to return nil: delivering nil is accepted
+					} else if dep.Optional && a.faultInOp[inv.Op] {
 						a.add("C15", "C15.optional", "optional-swallow", "r%d#%d: optional field %s is registered, its construction failed, and the failure was swallowed (field left nil)", inv.Reg, inv.N, dep)
 					} else {
 						a.add("C04", "C04.args", "nil-arg/"+regShape(r), "r%d#%d: parameter %s is registered (r%d) but nil was injected", inv.Reg, inv.N, dep, t.Members[0].Reg)
@@ -476,6 +478,27 @@ func (a *Analysis) ruleLifetimes() {
 			}
 		}
 	}
+}
+
+// stackHead: the godi frames of a panic stack.
+func stackHead(stk string) string {
+	var out []string
+	lines := strings.Split(stk, "\n")
+	for i := 0; i+1 < len(lines) && len(out) < 6; i++ {
+		if strings.Contains(lines[i], "junioryono/godi/v4") && !strings.Contains(lines[i], "/simrt.") {
+			out = append(out, "    "+strings.TrimSpace(lines[i])+" "+strings.TrimSpace(lines[i+1]))
+		}
+	}
+	return strings.Join(out, "\n")
+}
+
+func (a *Analysis) nilFaultFired(reg int) bool {
+	for _, f := range a.h.faults {
+		if f.Kind == FCtorNil && f.Fired > 0 && (reg < 0 || f.Reg == reg) {
+			return true
+		}
+	}
+	return false
 }
 
 func (a *Analysis) anyFault() bool {
@@ -630,12 +653,11 @@ func (a *Analysis) closeEventsIn(task, s, e int) []Event {
 
 // C12.report / C12.idem on every Close call.
 func (a *Analysis) ruleCloseCalls() {
-	type started struct{ seq int }
-	firstStart := map[int]int{} // handle -> earliest Close start
+	firstEnd := map[int]int{} // handle -> earliest return of a Close call
 	for _, op := range a.ops {
-		if (op.Op.Kind == OpClose || op.Op.Kind == OpFinish) && op.Handle >= 0 {
-			if s, ok := firstStart[op.Handle]; !ok || op.StartSeq < s {
-				firstStart[op.Handle] = op.StartSeq
+		if (op.Op.Kind == OpClose || op.Op.Kind == OpFinish) && op.Handle >= 0 && op.Done && op.Panic == nil && op.Aborted == "" {
+			if s, ok := firstEnd[op.Handle]; !ok || op.EndSeq < s {
+				firstEnd[op.Handle] = op.EndSeq
 			}
 		}
 	}
@@ -663,7 +685,7 @@ func (a *Analysis) ruleCloseCalls() {
 		if failed == 0 && op.Err != nil {
 			a.add("C12", "C12.report", kind+"/spurious", "op%d %s on h%d returned %v although no instance Close failed inside this call", op.GID, op.Op, op.Handle, op.Err)
 		}
-		if op.StartSeq > firstStart[op.Handle] {
+		if fe, ok := firstEnd[op.Handle]; ok && op.StartSeq > fe {
 			if op.Err != nil {
 				a.add("C12", "C12.idem", kind, "op%d: repeated Close of h%d returned %v", op.GID, op.Handle, op.Err)
 			}
@@ -678,21 +700,63 @@ func (h *H) taskOfOp(op *OpResult) int {
 	return h.opTask[op.GID]
 }
 
-// closedBefore: did a Close of handle hid (or an ancestor / the provider) return before seq?
+// closedBefore: was handle hid certainly closed before seq?
+//   - a Close call on hid itself returned before seq (the disposed flag is set by
+//     whichever caller won, before any caller returns), or
+//   - a Close call on an ancestor x (or the provider) returned before seq and the
+//     cascade is certainly complete: no Close call on x or on any of x's own
+//     ancestors is still in flight at seq and no context on that chain was
+//     cancelled (a watcher goroutine may then be the one doing the work while an
+//     explicit Close returns early as a no-op).
 func (a *Analysis) closedBefore(hid, seq int) (bool, int) {
-	chain := map[int]bool{}
-	for x := hid; x >= 0; {
-		chain[x] = true
-		hd := a.h.handle(x)
-		if hd == nil || hd.Parent == x {
-			break
+	chainOf := func(x int) []int {
+		var c []int
+		for x >= 0 {
+			c = append(c, x)
+			hd := a.h.handle(x)
+			if hd == nil || hd.Parent == x {
+				break
+			}
+			x = hd.Parent
 		}
-		x = hd.Parent
+		if len(c) == 0 || c[len(c)-1] != 0 {
+			c = append(c, 0)
+		}
+		return c
 	}
-	chain[0] = true
-	for _, op := range a.ops {
-		if (op.Op.Kind == OpClose || op.Op.Kind == OpFinish) && chain[op.Handle] && op.Done && op.Panic == nil && op.Aborted == "" && op.EndSeq < seq {
-			return true, op.Handle
+	returned := func(x int) bool {
+		for _, op := range a.ops {
+			if (op.Op.Kind == OpClose || op.Op.Kind == OpFinish) && op.Handle == x && op.Done && op.Panic == nil && op.Aborted == "" && op.EndSeq < seq {
+				return true
+			}
+		}
+		return false
+	}
+	quiet := func(chain []int) bool {
+		in := map[int]bool{}
+		for _, x := range chain {
+			in[x] = true
+			if hd := a.h.handle(x); hd != nil && hd.CancelSeq > 0 && hd.CancelSeq < seq {
+				return false
+			}
+		}
+		for _, op := range a.ops {
+			if (op.Op.Kind == OpClose || op.Op.Kind == OpFinish) && in[op.Handle] && op.StartSeq < seq && !(op.Done && op.EndSeq < seq) {
+				return false
+			}
+		}
+		return true
+	}
+	if returned(hid) {
+		return true, hid
+	}
+	chain := chainOf(hid)
+	for i, x := range chain {
+		if i == 0 {
+			continue
+		}
+		if returned(x) && quiet(chain[i:]) {
+			return true, x
 		}
 	}
 	return false, -1
@@ -792,10 +856,10 @@ func (a *Analysis) ruleOpValidity() {
 			oshape += "||Close"
 		}
 		if op.Panic != nil {
-			a.add("C15", "C15.nopanic", oshape, "op%d %s panicked: %v", op.GID, op.Op, op.Panic)
-			a.add("C09", "C09.panic", oshape, "op%d %s panicked: %v", op.GID, op.Op, op.Panic)
+			a.add("C15", "C15.nopanic", oshape, "op%d %s panicked: %v\n%s", op.GID, op.Op, op.Panic, stackHead(op.PanicStk))
+			a.add("C09", "C09.panic", oshape, "op%d %s panicked: %v\n%s", op.GID, op.Op, op.Panic, stackHead(op.PanicStk))
 			if overlap {
-				a.add("C13", "C13.overlap", oshape+"/panic", "op%d %s overlapping a Close panicked: %v", op.GID, op.Op, op.Panic)
+				a.add("C13", "C13.overlap", oshape+"/panic", "op%d %s overlapping a Close panicked: %v\n%s", op.GID, op.Op, op.Panic, stackHead(op.PanicStk))
 			}
 			continue
 		}
@@ -811,6 +875,10 @@ func (a *Analysis) ruleOpValidity() {
 			a.add("C13", "C13.overlap", oshape+"/nil", "op%d %s returned (nil, nil)", op.GID, op.Op)
 			a.add("C09", "C09.valid", oshape+"/nil", "op%d %s returned (nil, nil)", op.GID, op.Op)
 			continue
+		}
+		if op.TypedNil && !a.nilFaultFired(-1) {
+			a.add("C13", "C13.overlap", oshape+"/typed-nil", "op%d %s returned a nil instance without error", op.GID, op.Op)
+			a.add("C09", "C09.valid", oshape+"/typed-nil", "op%d %s returned a nil instance without error", op.GID, op.Op)
 		}
 		if op.Err == nil || kind == OpBuild || kind == OpClose || kind == OpFinish {
 			continue
